@@ -18,6 +18,7 @@ mod t_c09;
 mod t_c15;
 mod t_c11;
 mod t_c12;
+mod t_c13;
 mod t_c18;
 mod t_c19;
 
@@ -35,6 +36,7 @@ pub fn t_catalogue(prop: &str) -> Option<Vec<tcommon::Scn>> {
     "C16" => Some(t_c15::c16_scenarios()),
     "C11" => Some(t_c11::scenarios()),
     "C12" => Some(t_c12::scenarios()),
+    "C13" => Some(t_c13::scenarios()),
     "C18" => Some(t_c18::scenarios()),
     "C19" => Some(t_c19::scenarios()),
     _ => None,
@@ -68,7 +70,13 @@ fn check(prop: &str, tier: &str) -> i32 {
       report::finish(r)
     }
     "C10" => report::finish(s_c10::check(tier)),
-    "C13" => report::finish(s_c13::check(tier)),
+    "C13" => {
+      let mut r = s_c13::check(tier);
+      r.engine = "S+T".into();
+      r.assumptions.extend(t_assumptions());
+      tcommon::run_scenarios(&mut r, t_catalogue(prop).unwrap(), tier);
+      report::finish(r)
+    }
     _ => match s_main::check(prop, tier) {
       Some(r) => report::finish(r),
       None => {
